@@ -20,6 +20,11 @@ def loop(rec, shard, nshards, total, cap_s, fn):
             break
         fn(n)
         done += 1
+        if random.Random(f"repeat/{n}").random() < 0.125:      # not a modulus of n: case kinds are chosen by n % k
+            # hostile history: the SAME operation once more in the same process - whatever the first run left in
+            # process-wide memos, class attributes or shared plug-in objects must not change the second result
+            fn(n)
+            rec.count("cases_repeated_in_the_same_process")
     rec.count("cases_run", done)
 
 
